@@ -59,7 +59,7 @@ theorem run_doomed_err (E : Env) (fuel : Nat) (s : Sys) (todo : List Item) (h : 
 
 /-- **The write phase never runs out of fuel** when at most `N` frames are lost from now on and the
     fuel covers the pending work plus 130 steps per possible retransmission. -/
-theorem run_no_fuel (E : Env) (hE : ∀ k, 1 ≤ E.blkOf k ∧ E.blkOf k ≤ 127) (payload : Bytes) :
+theorem run_no_fuel (E : Env) (hE : Plain E) (payload : Bytes) :
     ∀ (fuel : Nat) (s : Sys) (todo : List Item) (N : Nat), Inv payload s todo → AtMost E s.nreq N →
     todo.length + 130 * (N + (if s.srv.sseq < s.cl.seqno then 1 else 0)) + 2 ≤ fuel →
     (run E fuel s todo).2 ≠ .fuel := by
@@ -174,7 +174,7 @@ theorem filter_mem_le (L : List Nat) : ∀ (R : List Nat), R.Nodup →
     rw [h4]; simp only [List.length_cons]; omega
 
 theorem atMost_of_list (blkOf : Nat → Nat) (L : List Nat) (a : Nat) :
-    AtMost ⟨blkOf, fun n => L.contains n⟩ a L.length := by
+    AtMost { blkOf := blkOf, lost := fun n => L.contains n } a L.length := by
   intro k
   exact filter_mem_le L _ (List.nodup_range')
 
